@@ -1877,7 +1877,7 @@ class RTCSctpTransport(AsyncIOEventEmitter):
                 self.emit("datachannel", channel)
             elif msg_type == DATA_CHANNEL_ACK:
                 channel = self._data_channels.get(stream_id)
-                if channel is not None:
+                if channel is not None and channel.readyState == "connecting":
                     channel._setReadyState("open")
         elif pp_id == WEBRTC_STRING and stream_id in self._data_channels:
             # emit message
